@@ -919,7 +919,7 @@ class LegCharge:
             assert chinfo == chargeinfo
             chinfo = chargeinfo
         if isinstance(charge, str):
-            charge = chinfo.names.index(charge)
+            charge = leg.chinfo.names.index(charge)  # index in the original chinfo, `charge` is dropped in the new one
         return cls.from_qind(chinfo, leg.slices, np.delete(leg.charges, charge, 1), leg.qconj)
 
     @classmethod
